@@ -47,3 +47,57 @@ func ZZCount() {
 }
 
 func init() { ZZHarnesses["ZZCount"] = ZZCount }
+
+func ZZDebug2() {
+	s := jschema.New("s", "1 /* a *")
+	err := s.Check()
+	if err != nil {
+		v.Observe("err", err.Error())
+	}
+	v.Assert(err == nil, "debug")
+}
+
+func init() { ZZHarnesses["ZZDebug2"] = ZZDebug2 }
+
+func ZZDebug3() {
+	s := jschema.New("s", "@a |")
+	err := s.Check()
+	if err != nil {
+		v.Observe("err", err.Error())
+	}
+	v.Assert(err == nil, "debug")
+}
+
+func init() { ZZHarnesses["ZZDebug3"] = ZZDebug3 }
+
+func ZZDebug4() {
+	x := ""
+	if v.Choose(0, 1) == 1 {
+		x = "@t"
+	}
+	root := jschema.New("root", "@t")
+	err := root.AddType("@t", jschema.New("t", x))
+	if err == nil {
+		err = root.Check()
+	}
+	if err != nil {
+		v.Observe("err", err.Error())
+	}
+	v.Assert(err == nil, "debug")
+}
+
+func init() { ZZHarnesses["ZZDebug4"] = ZZDebug4 }
+
+func ZZDebug5() {
+	root := jschema.New("root", "@t")
+	err := root.AddType("@t", jschema.New("t", ""))
+	if err == nil {
+		err = root.Check()
+	}
+	if err != nil {
+		v.Observe("err", err.Error())
+	}
+	v.Assert(err == nil, "debug")
+}
+
+func init() { ZZHarnesses["ZZDebug5"] = ZZDebug5 }
